@@ -1,6 +1,7 @@
 package main
 
 import (
+	"fmt"
 	"sort"
 	"strings"
 
@@ -82,15 +83,26 @@ func lockTransfer(n Node, st string) string {
 		return st
 	}
 	m := lockSetParse(st)
+	dropAcq := func() {
+		for k := range m {
+			if strings.HasPrefix(k, "acq@") {
+				delete(m, k)
+			}
+		}
+	}
 	switch l + "." + op {
 	case "mu.Lock":
 		m["mu:W"] = true
+		m[fmt.Sprintf("acq@%d", n.In.Pos())] = true // which acquisition of DB.mu governs this point
 	case "mu.RLock":
 		m["mu:R"] = true
+		m[fmt.Sprintf("acq@%d", n.In.Pos())] = true
 	case "mu.Unlock":
 		delete(m, "mu:W")
+		dropAcq()
 	case "mu.RUnlock":
 		delete(m, "mu:R")
+		dropAcq()
 	case "maint.Lock":
 		m["maint"] = true
 	case "maint.Unlock":
